@@ -60,7 +60,7 @@ fn gen_prim(g: &mut Gen, c: &mut GenCtx) -> Prim {
             };
             Prim::Name(pat, g.chance(1, 6))
         }
-        3 => Prim::Type(*g.pick(&['f', 'd', 'l'])),
+        3 => Prim::Type(g.pick(&['f', 'd', 'l'])),
         4 => {
             let base = if c.names.is_empty() { "a".to_string() } else { g.pick(&c.names).clone() };
             Prim::Path(format!("*{base}*"))
@@ -104,7 +104,7 @@ fn gen_prim(g: &mut Gen, c: &mut GenCtx) -> Prim {
                 5 => vec![s("-daystart")],
                 6 => vec![s("-xdev")],
                 7 => vec![s("-mount")],
-                _ => vec![s("-regextype"), s(*g.pick(&["emacs", "posix-basic", "posix-extended", "grep", "ed", "sed"]))],
+                _ => vec![s("-regextype"), s(g.pick(&["emacs", "posix-basic", "posix-extended", "grep", "ed", "sed"]))],
             })
         }
     }
